@@ -662,3 +662,75 @@ def _mmh_instances(m):
 
 
 CUSTOM['pane.classes:_maybe_make_hash'] = _mmh_instances
+
+
+# ---- PaneBase instance protocol (copy / deepcopy / replace / setattr / delattr) on instances of the pool classes ------------
+class PMut(PaneBase, frozen=False):
+    a: int = 1
+    b: str = 'x'
+    c: t.List[int] = field(default_factory=list)
+
+
+def _base_objs():
+    out = []
+    for cls, objs in _instances_of_classes():
+        out += objs[:4]
+    out += [PMut(), PMut(a=5), PMut.from_data({'b': 'q', 'c': [1, 2]}), PT(1), PT(1, 2, label='z'), PNest.from_data({'inner': {'n': 1}})]
+    return out
+
+
+def _copy_instances(m):
+    import pane.classes as C
+    return [(C.PaneBase.__copy__, ['self'], (o,), f'copy({o!r})') for o in _base_objs()]
+
+
+def _deepcopy_instances(m):
+    import pane.classes as C
+    return [(C.PaneBase.__deepcopy__, ['self', 'memo'], (o, {}), f'deepcopy({o!r})') for o in _base_objs()]
+
+
+def _replace_instances(m):
+    import pane.classes as C
+    out = []
+    for o in _base_objs():
+        names = [f.name for f in o.__pane_info__.fields if f.init]
+        for ch in ({}, {names[0]: getattr(o, names[0])}, {names[-1]: getattr(o, names[-1])}, {names[0]: 'not valid for most'}):
+            out.append(((lambda self, changes: C.PaneBase.__replace__(self, **changes)), ['self', 'changes'], (o, ch), f'replace({o!r}, **{ch!r})'))
+    return out
+
+
+def _setattr_instances(m):
+    import pane.classes as C
+    import copy as _copy
+    out = []
+    for o in _base_objs():
+        for name, value in (('a', 7), (o.__pane_info__.fields[0].name, None), ('zz_new', 1)):
+            out.append((C.PaneBase.__setattr__, ['self', 'name', 'value'], (_copy.copy(o), name, value), f'setattr({o!r}, {name!r}, {value!r})'))
+    return out
+
+
+CUSTOM['pane.classes:PaneBase.__copy__'] = _copy_instances
+CUSTOM['pane.classes:PaneBase.__deepcopy__'] = _deepcopy_instances
+CUSTOM['pane.classes:PaneBase.__replace__'] = _replace_instances
+CUSTOM['pane.classes:PaneBase.__setattr__'] = _setattr_instances
+CUSTOM['pane.classes:PaneBase.__delattr__'] = lambda m: [(__import__('pane.classes').classes.PaneBase.__delattr__, ['self', 'name'], (o, 'a'), f'delattr({o!r})') for o in _base_objs()]
+
+
+def _repr_instances(m):
+    import pane.classes as C
+    return [(C.PaneBase.__repr__, ['self'], (o,), f'repr of {type(o).__name__}') for o in _base_objs()]
+
+
+def _dict_instances(m):
+    import pane.classes as C
+    out = []
+    for o in _base_objs():
+        for so in (False, True):
+            for rn in (None, 'camel', 'scream'):
+                out.append(((lambda self, set_only, rename: C.PaneBase.dict(self, set_only=set_only, rename=rename)), ['self', 'set_only', 'rename'],
+                            (o, so, rn), f'{o!r}.dict(set_only={so}, rename={rn!r})'))
+    return out
+
+
+CUSTOM['pane.classes:PaneBase.__repr__'] = _repr_instances
+CUSTOM['pane.classes:PaneBase.dict'] = _dict_instances
